@@ -554,7 +554,12 @@ def h_deep(eng, case):
         eng.check(expect, 'reference-accepts-the-valid-chain')      # the reference itself is not vacuous
 
     def mk(app):
-        return [lvs_validator(Checker(model, {}), app, W['anchor'][1], MemoryKeyStorage())]
+        from ndn.security.validator.cascade_validator import EmptyKeyStorage
+        # the key store is the caller's choice: a fresh memory store, the library's no-caching store, or none given
+        st = {'memory': MemoryKeyStorage, 'empty': EmptyKeyStorage}.get(case.get('storage', 'memory'))
+        if case.get('storage') == 'default':
+            return [lvs_validator(Checker(model, {}), app, W['anchor'][1])]
+        return [lvs_validator(Checker(model, {}), app, W['anchor'][1], st())]
     WW = {'anchor': (W['anchor'][0], W['anchor'][1]), 'mid': (W['anchor'][0], W['anchor'][1]),
           'other': (W['anchor'][0], W['anchor'][1])}
     r, out, face, loop, err = run_validation(eng, WW, [W['packet']], mk, [(0, 0)], W['certs'], W['behaviour'])
@@ -757,6 +762,14 @@ def h_history(eng, case):
             certs[tuple(bytes(c) for c in W[role][0])] = W[role][1]
 
     def mk(app):
+        if case.get('shared_storage'):
+            # both validators are handed the SAME key store by the application; merely constructing a validator
+            # must not put anything into it that changes another validator's verdict
+            from ndn.security.validator.cascade_validator import MemoryKeyStorage
+            st = MemoryKeyStorage()
+            vB = lvs_validator(Checker(C['model'], {}), app, WB['anchor'][1], st)
+            vA = lvs_validator(Checker(C['model'], {}), app, WA['anchor'][1], st)
+            return [vA, vB]
         vA = lvs_validator(Checker(C['model'], {}), app, WA['anchor'][1])
         vB = lvs_validator(Checker(C['model'], {}), app, WB['anchor'][1])
         return [vA, vB]
@@ -830,6 +843,12 @@ def cases(tier, seed):
             for link in range(D):
                 for off in range(0, 460):
                     cs.append(('deep', {'depth': D, 'kinds': kinds, 'fault': 'tamper', 'link': link, 'k': ['at', off]}))
+    for D, kinds in ((1, ['ecdsa']), (2, ['rsa', 'ecdsa']), (3, ['hmac', 'ecdsa', 'rsa'])):
+        for st in ('empty', 'default'):
+            for f in ('none', 'sig-corrupt', 'issuer-not-allowed', 'cert-nack'):
+                if f == 'cert-nack' and D == 1:
+                    continue
+                cs.append(('deep', {'depth': D, 'kinds': kinds, 'fault': f, 'link': 0, 'storage': st}, {'weight': 5}))
     for D, kinds in ((2, ['rsa', 'ecdsa']),) if tier == 'quick' else ((1, ['ecdsa']), (2, ['rsa', 'ecdsa']), (3, ['hmac', 'ecdsa', 'rsa'])):
         for n in (1, 2, 3):
             cs.append(('seq', {'depth': D, 'kinds': kinds, 'len': n}, {'weight': 5 ** n}))
@@ -841,4 +860,6 @@ def cases(tier, seed):
             cs.append(('ctor_roots', {'schema': sch, 'anchor_kind': kind}))
     for o in range(7):
         cs.append(('history', {'order': o}, {'weight': 5}))
+    cs.append(('history', {'order': 2, 'shared_storage': True}, {'weight': 5}))      # B asked first, A only constructed
+    cs.append(('history', {'order': 4, 'shared_storage': True}, {'weight': 5}))
     return cs
